@@ -57,13 +57,18 @@ type world struct {
 	handles  map[int]*cache.Entry[Meta]
 	nextH    int
 	universe []int
+	capBind  bool
 	steps    []*step
 	ops      []string // readable macro operations
 	auto     bool     // primitives describe themselves (directed histories)
 }
 
+// capBindNext: the next memory-backend world gets a huge max_cache_size and its MEMORY BUDGET set to the limit
+// instead (the effective limit of the memory backend is min(max_cache_size, memory cap): same model, other code path).
+var capBindNext bool
+
 func newWorld(cfg *config.Config, backend int, lim int64, dir string, universe []int) *world {
-	w := &world{backend: backend, lim: lim, cfg: cfg, dir: dir, handles: map[int]*cache.Entry[Meta]{}, universe: universe}
+	w := &world{backend: backend, lim: lim, capBind: capBindNext && backend == 0, cfg: cfg, dir: dir, handles: map[int]*cache.Entry[Meta]{}, universe: universe}
 	w.open()
 	return w
 }
@@ -73,7 +78,12 @@ func (w *world) open() {
 	ctx, cancel := context.WithCancel(context.Background())
 	w.cancel = cancel
 	if w.backend == 0 {
-		w.c = cache.NewMemoryCache[Meta](w.cfg, 50, w.lim, time.Hour, shardCount, ctx)
+		if w.capBind {
+			w.c = cache.NewMemoryCache[Meta](w.cfg, 50, int64(1)<<50, time.Hour, shardCount, ctx)
+			w.c.VerifSetMemoryCap(w.lim)
+		} else {
+			w.c = cache.NewMemoryCache[Meta](w.cfg, 50, w.lim, time.Hour, shardCount, ctx)
+		}
 	} else {
 		w.c = cache.NewFileCache[Meta](w.cfg, w.dir, w.lim, time.Hour, shardCount, ctx)
 	}
